@@ -58,6 +58,23 @@ def libsOf (j : Json) : Except String (Obj.Libs Unit Str) := do
   pure { parseTime := fun s => if times.contains s then some () else none,
          parseUrl := fun s => (urls.find? (·.1 = s)).map (·.2) }
 
+/-- The same with the parsed timestamps as values (`timevals`: accepted string, what it denotes). -/
+def libsWithTimes (j : Json) : Except String (Obj.Libs Str Str) := do
+  let L ← libsOf j
+  let tv ← arr j "timevals"
+  let times ← tv.toList.mapM fun u => do
+    let p ← u.getArr?
+    let k ← (p[0]?.getD Json.null).getStr?
+    let v ← (p[1]?.getD Json.null).getStr?
+    pure (k.toList, v.toList)
+  pure { parseTime := fun s => (times.find? (·.1 = s)).map (·.2), parseUrl := L.parseUrl }
+
+def markupKindName : Obj.MarkupKind → String
+  | .plain => "plain"
+  | .html => "html"
+  | .gemini => "gemini"
+  | .markdown => "markdown"
+
 def accessorOp (j : Json) : Except String Res := do
   match j.getObjVal? "impl" with
   | .ok i => if let .ok _ := i.getObjVal? "baddoc" then return { model := i, nontrivial := false }
@@ -70,7 +87,7 @@ def accessorOp (j : Json) : Except String Res := do
   let key ← str j "key"
   let key2 ← str j "key2"
   let acc ← (← j.getObjVal? "acc").getStr?
-  let L ← libsOf j
+  let L ← libsWithTimes j
   let present := (Obj.lookup kvs key).isSome
   let impl := (j.getObjVal? "impl").toOption.getD Json.null
   -- predicates on the implementation's output (string-valued accessors): a string that is
@@ -98,13 +115,19 @@ def accessorOp (j : Json) : Except String Res := do
            preds := [("number_exact", ok)], nontrivial := present }
   | "object" => pure { model := resJson (fun o => ofJVal (.obj o)) (Obj.getObject kvs key), nontrivial := present }
   | "list" => pure { model := resJson (fun l => Json.arr (l.map ofJVal).toArray) (Obj.getList kvs key), nontrivial := present }
-  | "time" => pure { model := resJson (fun _ => Json.bool true) (Obj.getTime L kvs key), nontrivial := present }
+  | "time" => pure { model := resJson js (Obj.getTime L kvs key), nontrivial := present }
   | "url" => pure { model := resJson js (Obj.getURL L kvs key), nontrivial := present }
   | "mediatype" =>
     pure { model := resJson (fun m => Json.arr #[js m.essence, js m.supertype, js m.subtype]) (Obj.getMediaType kvs key),
            nontrivial := present }
   | "markup" =>
-    pure { model := resJson (fun _ => Json.bool true) (Obj.getMarkupKind kvs key key2), nontrivial := present }
+    -- the renderer chosen is observed through what it renders: the harness constructs all four
+    -- renderers on the sanitised text itself (`renders`), the model says which one it must be
+    let m : Json := match Obj.getMarkupKind kvs key key2 with
+      | .error e => errJson e
+      | .ok (kind, _) => ((j.getObjVal? "renders").toOption.bind fun t =>
+          (t.getObjVal? (markupKindName kind)).toOption).getD (Json.str "no render table")
+    pure { model := m, nontrivial := present }
   | _ => throw "bad accessor" : Except String Res)
   -- a media type handed out is `token "/" token` (HTTP token characters) and the start of the string
   let tokenStr (t : String) : Bool := !t.isEmpty && t.toList.all Mime.isTok
@@ -122,7 +145,22 @@ def accessorOp (j : Json) : Except String Res := do
   let aloneOk : Bool := match j.getObjVal? "alone" with
     | .ok a => a == impl
     | .error _ => true
-  pure { r with preds := r.preds ++ [("empty_string_is_absent", absentOk), ("string_sanitised_nonempty", stringOk),
+  -- the property fixes the answer completely (Props/C17: per-accessor classification theorems about
+  -- the model's accessors, the parsers' verdicts being the real libraries'): which of the three
+  -- kinds of answer, and the value
+  let errOf (x : Json) : Option String := match x.getObjVal? "err" with
+    | .ok (Json.str e) => some e
+    | _ => none
+  let shaped (x : Json) : Bool := (errOf x).isSome || (x.getObjVal? "ok").toOption.isSome
+  let absentIff : Bool := !shaped impl || ((errOf impl == some "absent") == (errOf r.model == some "absent"))
+  let wrongIff : Bool := !shaped impl || ((errOf impl == some "wrong") == (errOf r.model == some "wrong"))
+  let valueOk : Bool := match impl.getObjVal? "ok", r.model.getObjVal? "ok" with
+    | .ok a, .ok b => a == b
+    | _, _ => true
+  pure { r with preds := r.preds ++ [("absent_exactly_when_missing_null_or_empty", absentIff),
+                                      ("wrong_exactly_when_other_type_or_unparseable", wrongIff),
+                                      ("returned_value_is_the_json_value", valueOk),
+                                      ("empty_string_is_absent", absentOk), ("string_sanitised_nonempty", stringOk),
                                       ("answer_independent_of_earlier_accessors", aloneOk),
                                       ("media_type_is_token_slash_token", mediaOk)] }
 
@@ -230,7 +268,11 @@ def configOp (j : Json) : Except String Res := do
 def hookOp (j : Json) : Except String Res := do
   let hook ← strList j "hook"
   let link ← str j "link"
-  let mt : Mime.MediaType := ⟨← str j "essence", ← str j "supertype", ← str j "subtype"⟩
+  let given : Mime.MediaType := ⟨← str j "essence", ← str j "supertype", ← str j "subtype"⟩
+  -- a media type as a document writes it: what `mime.Parse` makes of it, else `mime.Unknown()`
+  let mt : Mime.MediaType := match j.getObjVal? "mediatype" with
+    | .ok (Json.str raw) => (Mime.parse raw.toList).getD Mime.unknown
+    | _ => given
   let impl := (j.getObjVal? "impl").toOption.getD Json.null
   match Hook.build hook link mt with
   | .error _ => pure { model := panicJson }
@@ -247,7 +289,15 @@ def hookOp (j : Json) : Except String Res := do
            preds := [("argv_length", argvI.length == hook.length),
                      ("program_untouched", argvI.head? == hook.head?),
                      ("stdin_iff_no_url", (stdinI == link && !hasUrl) || (stdinI.isEmpty && hasUrl) || (link.isEmpty)),
-                     ("link_whole_argument", !hasUrl || argvI.contains link)],
+                     ("link_whole_argument", !hasUrl || argvI.contains link),
+                     -- an argument is replaced iff it is exactly a placeholder, by exactly the value it names
+                     ("arguments_replaced_whole_or_untouched",
+                        ((hook.zip argvI).drop 1).all fun (h, x) =>
+                          if h == "%url".toList then x == link
+                          else if h == "%mimetype".toList then x == mt.essence
+                          else if h == "%subtype".toList then x == mt.subtype
+                          else if h == "%supertype".toList then x == mt.supertype
+                          else x == h)],
            nontrivial := hook.length ≥ 2 }
 
 end Ops
